@@ -344,7 +344,9 @@ func (s *Store) populateEmptyFile() error {
 
 func (s *Store) GetByHash(ctx context.Context, datahash share.DataHash) (eds.AccessorStreamer, error) {
 	if datahash.IsEmptyEDS() {
-		return eds.EmptyAccessor, nil
+		// wrap like any other accessor handed out by the store, so that out-of-bounds
+		// indexes are rejected by the bounds validation instead of panicking in rsmt2d
+		return wrapAccessor(eds.EmptyAccessor), nil
 	}
 	lock := s.stripLock.byHash(datahash)
 	lock.RLock()
